@@ -302,6 +302,7 @@ func (c *conn) close() {
 
 	c.ctx.Cancel()
 	c.conn.Close()
+	vtr("cl.setflag", bin.Bin128{}, 0, 0)
 	c.closed.Set()
 	c.writeq.Close()
 }
@@ -421,16 +422,20 @@ func (c *conn) maybeChannelsReached() {
 
 func (c *conn) addClosed(fn func()) int64 {
 	// Check if closed
+	vtr("lc.check1", bin.Bin128{}, 0, 0)
 	if c.closed.IsSet() {
 		return 0
 	}
 
 	// Add listener
 	id := c.closedListenerSeq.Add(1)
+	vtr("lc.set", bin.Bin128{}, 0, 0)
 	c.closedListeners.Set(id, fn)
 
 	// Check again if closed
+	vtr("lc.check2", bin.Bin128{}, 0, 0)
 	if c.closed.IsSet() {
+		vtr("lc.del", bin.Bin128{}, 0, 0)
 		c.closedListeners.Delete(id)
 		return 0
 	}
@@ -438,13 +443,17 @@ func (c *conn) addClosed(fn func()) int64 {
 }
 
 func (c *conn) removeClosed(id int64) {
+	vtr("lc.unsub", bin.Bin128{}, 0, 0)
 	c.closedListeners.Delete(id)
 }
 
 func (c *conn) notifyClosed() {
+	vtr("cl.notify", bin.Bin128{}, 0, 0)
 	c.closedListeners.Range(func(_ int64, fn func()) bool {
+		vtr("cl.call", bin.Bin128{}, 0, 0)
 		fn()
 		return true
 	})
+	vtr("cl.clear", bin.Bin128{}, 0, 0)
 	c.closedListeners.Clear()
 }
